@@ -323,15 +323,18 @@ def run_toy(ctx):
     lines = []
     for meta, im in zip(metas, impl[:ncase]):
         sp = specs[meta["spec"]]
-        nd_tok = "nan"
+        ndv = NAN
         if isinstance(im, dict) and "newdir" in im:
-            nd_tok = im["newdir"]
+            ndv = C.unfx(im["newdir"])
         csc = 0.0 if meta["tmode"] == "none" else (0.2 if meta["tmode"] == "pos" else -0.2) * abs(meta["target"]) / sp["m0"]
         T = [[csc * v for v in row] for row in sp["E"]]
-        lines.append("toybulk %d %s %s %s %s %s %s %s %s %s %s %s %s %s %s %s" % (
-            meta["kind"], C.fx(sp["amp"]), C.fx(meta["a"]), C.fx(meta["b"]), C.fx(meta["q"]), C.fx(meta["d0"]),
-            "T" if meta["diriter"] else "F", C.fx(meta["target"]), C.fx(meta["guess"]), C.fx(meta["gdir"]), nd_tok,
-            C.flist(sp["theta"]), C.flist(sp["df"]), C.flist(sp["dth"]), field_tok(sp["E"]), field_tok(T)))
+        # second line: the same case with inputs perturbed at rounding level; where the model's own answer moves,
+        # the case is ill-conditioned (chaotic iteration far from any root) and is not compared
+        for tg, ndp in ((meta["target"], ndv), (meta["target"] * (1 + 1e-13), ndv + 1e-10)):
+            lines.append("toybulk %d %s %s %s %s %s %s %s %s %s %s %s %s %s %s %s" % (
+                meta["kind"], C.fx(sp["amp"]), C.fx(meta["a"]), C.fx(meta["b"]), C.fx(meta["q"]), C.fx(meta["d0"]),
+                "T" if meta["diriter"] else "F", C.fx(tg), C.fx(meta["guess"]), C.fx(meta["gdir"]), C.fx(ndp),
+                C.flist(sp["theta"]), C.flist(sp["df"]), C.flist(sp["dth"]), field_tok(sp["E"]), field_tok(T)))
     for bm in bmetas:
         sp = specs[bm["spec"]]
         zeroT = [[0.0] * len(sp["dth"]) for _ in sp["df"]]
@@ -343,7 +346,9 @@ def run_toy(ctx):
             "T" if bm["diriter"] else "F", C.fx(bm["dc"]), C.fx(sp["sdir"]), C.flist(kk), C.flist(sp["theta"]),
             C.flist(sp["df"]), C.flist(sp["dth"]), field_tok(zeroT), bm["n"], pts))
     mod = ctx.model(lines)
-    for meta, im, mo in zip(metas, impl[:ncase], mod[:ncase]):
+    mod_pert = mod[1:2 * ncase:2]
+    mod = mod[0:2 * ncase:2] + mod[2 * ncase:]
+    for meta, im, mo, mp in zip(metas, impl[:ncase], mod[:ncase], mod_pert):
         rep = dict(meta, op="_u10_from_bulk_rate_point with analytic source terms", impl=im, model=" ".join(mo),
                    grid=specs[meta["spec"]]["f"], directions=specs[meta["spec"]]["th"])
         ctx.count([meta[k] for k in sorted(meta)], meta["target"] != 0.0)
@@ -360,6 +365,11 @@ def run_toy(ctx):
         if not meta["diriter"] and not C.close(di, meta["gdir"], 0, 0):
             ctx.oracle_fail("no direction iteration but the returned direction %r differs from the supplied one %r"
                             % (di, meta["gdir"]), rep)
+        up, dp = C.unfx(mp[0]), C.unfx(mp[1])
+        if (up != up) != (um != um) or (um == um and not C.close(up, um, 1e-8, 1e-10)) or \
+                (dm == dm and dp == dp and abs((dp - dm + 180) % 360 - 180) > 1e-7):
+            ctx.tally("toy:ill-conditioned(skipped)")
+            continue
         if (ui != ui) != (um != um) or (ui == ui and not C.close(ui, um, 1e-7, 1e-9)):
             ctx.disagree("_u10_from_bulk_rate_point returns U10 %r, model %r" % (ui, um), rep)
             continue
